@@ -13,6 +13,14 @@ TRANS = [("QuartzModel.Theorems.MissingTrans", "Trans.missing_none")] + \
         [("QuartzModel.Theorems.TransFinal", "TransCsm." + t) for t in ["trans_nothing_missing", "trans_dayEquiv", "trans_nextTriggerTime", "trans_nextTriggerTime_values",
                                                                        "nextFireT_eq_nextFire", "C01_sound_trans", "C02_minimal_trans", "C06_total_trans"]]
 
+# quartz/cron.go: NextFireTime (the loop over wall-clock candidates around the state machine), fires, and the parser's integer helpers, translated by
+# harness/cmd/gotolean-cron -> Generated/TransCron.lean
+def _tc(*names):
+    return [("QuartzModel.Theorems.TransCron", "TransCron." + t) for t in names]
+TRANSCRON_LOOP = _tc("trans_cron_nothing_missing", "trans_fires", "trans_zoneLoop", "trans_nextFireTime")
+TRANSCRON_C14 = TRANSCRON_LOOP + _tc("C14_sound_transCron", "C14_no_miss_transCron", "C14_expiry_transCron", "C14_terminates_transCron", "C14_total_transCron")
+TRANSCRON_C07 = _tc("trans_cron_nothing_missing", "trans_inScope", "trans_fillRangeValues", "trans_fillStepValues", "trans_cronField_add", "trans_dowShift", "trans_boundaryTable")
+
 ODO = [("QuartzModel.Proofs.Odometer", t) for t in ["Odo.findForward_spec", "Odo.loop_fuel", "Odo.μ6_measure"]]
 
 # the dispatch step and the API calls are atomic with respect to each other because of the queue lock: its facts are obligations
@@ -96,7 +104,9 @@ THEOREMS = {
         "C14_chain_increasing", "C14_fixed_zone_is_special_case", "C14_total", "C14_reading_advances", "C14_result_reading",
         # the expiry clause at full strength (instants) is FALSE for the code as it is: proved negation with a witness that qh dst replays (known finding)
         "C14_expiry_full_fails"]] +
-           [("QuartzModel.Proofs.ZoneLemmas", "Cron.zoneLoop_spec"), ("QuartzModel.Proofs.ZoneLemmas", "Cron.zoneLoop_fuel")] + FACTS[:2],
+           [("QuartzModel.Proofs.ZoneLemmas", "Cron.zoneLoop_spec"), ("QuartzModel.Proofs.ZoneLemmas", "Cron.zoneLoop_fuel")] + FACTS[:2] +
+           # the C14 theorems hold for the TRANSLATED NextFireTime (loop and state machine), for an arbitrary zone
+           TRANS + TRANSCRON_C14,
     "C03": TIMERFACTS + COMPOSE[:3] + COMPOSE[8:] + SCHEDFACTS + [("QuartzModel.Theorems.C03", "Sched." + t) for t in ['C03_dispatch_has_entry', 'C03_never_early', 'C03_dispatch_is_popped_min', 'C03_own_trigger_once', 'C03_dispatch_answers_own_trigger', 'C03_at_most_once']], "C04": COMPOSE[3:8] + SCHEDFACTS + [("QuartzModel.Theorems.C12", "Pool.C12_facts")] + [("QuartzModel.Theorems.C04", "Sched." + t) for t in ['C04_accounted', 'C04_suspended_untouched', 'C04_misfire_iff_late', 'C04_misfire_only_if_late', 'C04_leaves_registry', 'C04_no_drift', 'C04_no_drift_start', 'C04_run_once', 'C04_hyps_reachable',
         'C04_saturates', 'C04_interval_answer', 'C04_saturated_registered', 'C04_saturated_not_due', 'C04_saturated_never_spins',
         'wrapAdd_neg', 'C04_addNanos_is_satAdd', 'C04_overflow_spins_unrepaired']] +
@@ -120,15 +130,15 @@ THEOREMS = {
            [("QuartzModel.Theorems.C11Lin", "Queue." + t) for t in ["C11_queue_lock_facts", "C11_queue_array_confined", "pushOp_run", "qcallOp_run",
                                                                    "C11_linearizable", "qcall_inv", "C11_concurrent_inv"]] +
            [("QuartzModel.Concurrency.Lock", "Lock.linearizable")],
-    "C01": FACTS + TRANS + ODO + [("QuartzModel.Theorems.C01", "Cron.C01_sound"), ("QuartzModel.Theorems.CronCode", "Cron.C01_sound_code"),
+    "C01": FACTS + TRANS + TRANSCRON_LOOP + _tc("C01_sound_transCron") + ODO + [("QuartzModel.Theorems.C01", "Cron.C01_sound"), ("QuartzModel.Theorems.CronCode", "Cron.C01_sound_code"),
                           ("QuartzModel.Proofs.CronAssembly", "Cron.allValid_iff_matches"), ("QuartzModel.Proofs.DaySpec", "Cron.dayValid_iff"),
                           ("QuartzModel.Proofs.CalendarLemmas", "Cal.Civil.ofSeconds_toSeconds"), ("QuartzModel.Proofs.CalendarLemmas", "Cal.Civil.toSeconds_lt_iff")],
-    "C02": FACTS + TRANS + ODO + [("QuartzModel.Theorems.C02", "Cron." + t) for t in ["C02_minimal", "C02_expired_iff", "C02_chain"]] +
+    "C02": FACTS + TRANS + TRANSCRON_LOOP + _tc("C02_minimal_transCron") + ODO + [("QuartzModel.Theorems.C02", "Cron." + t) for t in ["C02_minimal", "C02_expired_iff", "C02_chain"]] +
            [("QuartzModel.Theorems.CronCode", "Cron.C02_minimal_code"), ("QuartzModel.Theorems.CronCode", "Cron.C02_expired_iff_code"),
             ("QuartzModel.Proofs.CronAssembly", "Cron.csmNext_spec_some"), ("QuartzModel.Proofs.CronAssembly", "Cron.csmNext_spec_none")],
-    "C06": FACTS + TRANS + ODO + [("QuartzModel.Theorems.C06", "Cron." + t) for t in ["C06_total", "nextFire_ne_outOfFuel", "C06_single_pass"]] +
+    "C06": FACTS + TRANS + TRANSCRON_LOOP + _tc("C06_total_transCron") + ODO + [("QuartzModel.Theorems.C06", "Cron." + t) for t in ["C06_total", "nextFire_ne_outOfFuel", "C06_single_pass"]] +
            [("QuartzModel.Theorems.CronCode", "Cron.C06_total_code"), ("QuartzModel.Proofs.CronAssembly", "Cron.csmNext_ne_none")],
-    "C07": FACTS + [("QuartzModel.Theorems.C07", "Cron." + t) for t in [
+    "C07": FACTS + TRANSCRON_C07 + [("QuartzModel.Theorems.C07", "Cron." + t) for t in [
         "parse_wellFormed", "newTrigger_wellFormed", "parseField_inRange", "parseField_no_special", "parseDom_shape",
         "parseDow_shape", "C07_rejects_field_count", "C07_rejects_both_days", "C07_rejects_bad_step", "C07_macros",
         "C07_whitespace", "C07_missing_year", "normalize_glossary", "normalize_month", "normalize_day", "atoi_render",
